@@ -6,6 +6,7 @@ import (
 	"io"
 	gofs "io/fs"
 	"sync"
+	"time"
 
 	"github.com/tonistiigi/fsutil"
 )
@@ -26,6 +27,14 @@ type faultFS struct {
 	OnFault   func(kind string, k int)
 	Walks     int
 	Opens     int
+	SlowOpen  time.Duration
+	// the reads of the BlockAt-th opened file stop after BlockAfter bytes until Release is closed;
+	// OnBlock runs once (in its own goroutine) when the reader is stuck
+	BlockAt    int
+	BlockAfter int
+	OnBlock    func()
+	Release    chan struct{}
+	blockOnce  sync.Once
 }
 
 func (f *faultFS) Walk(ctx context.Context, target string, fn gofs.WalkDirFunc) error {
@@ -57,9 +66,15 @@ func (f *faultFS) Open(p string) (io.ReadCloser, error) {
 		}
 		return nil, errInjected
 	}
+	if f.SlowOpen > 0 {
+		time.Sleep(f.SlowOpen)
+	}
 	rc, err := f.FS.Open(p)
 	if err != nil {
 		return nil, err
+	}
+	if f.BlockAt != 0 && n == f.BlockAt {
+		return &blockReader{rc: rc, left: f.BlockAfter, fs: f}, nil
 	}
 	if f.ReadErrAt != 0 && n == f.ReadErrAt {
 		return &faultReader{rc: rc, left: f.ReadAfter, on: func() {
@@ -95,3 +110,31 @@ func (r *faultReader) Read(b []byte) (int, error) {
 }
 
 func (r *faultReader) Close() error { return r.rc.Close() }
+
+type blockReader struct {
+	rc   io.ReadCloser
+	left int
+	fs   *faultFS
+}
+
+func (r *blockReader) Read(b []byte) (int, error) {
+	if r.left > 0 {
+		if len(b) > r.left {
+			b = b[:r.left]
+		}
+		n, err := r.rc.Read(b)
+		r.left -= n
+		if n > 0 || err != nil {
+			return n, err
+		}
+	}
+	r.fs.blockOnce.Do(func() {
+		if r.fs.OnBlock != nil {
+			go r.fs.OnBlock()
+		}
+	})
+	<-r.fs.Release
+	return r.rc.Read(b)
+}
+
+func (r *blockReader) Close() error { return r.rc.Close() }
